@@ -118,8 +118,12 @@ func (s *Store) persist(higher Snapshot, persistOptions StorePersistOptions) (
 	if ss.isEmpty() {
 		// No mutations to persist, but child collections may have been
 		// created (still empty) or deleted, which takes a new footer.
+		// (Only when the store already has a data file in use: a file
+		// holding nothing but a footer would not be tracked by any segment
+		// and linger as soon as the next file is started.)
 		s.m.Lock()
-		differ := childCollectionsDiffer(s.footer, ss)
+		differ := childCollectionsDiffer(s.footer, ss) &&
+			s.footer != nil && s.footer.anyMmapRef() != nil
 		s.m.Unlock()
 		if !differ {
 			return s.Snapshot()
